@@ -16,6 +16,7 @@ Output: lean/OdfModel/Generated/XhtmlDispatch.lean
                          6 css       generate_stylesheet (opaque in the model)
                          9 rawDoc    anything else: a document-derived string that reaches the output unescaped
   coreEscapes          writedata writes escape(d); opentag and emptytag build every attribute with quoteattr(val)
+  cssWritesSafe        generate_stylesheet writes only literals, default_styles and <expr>.replace(']]>', ']]]]><![CDATA[>')
   specialStyles        the module's `special_styles`
   moinElements         the `elements` dict of a live ODF2MoinMoin (tag -> method name), built without loading a file
   moinIgnored / moinInline   IGNORED_TAGS / INLINE_TAGS of odf2moinmoin (from odf/elementtypes.py)
@@ -139,6 +140,28 @@ def core_escapes(cls):
     return wd, attr_quoted('opentag'), attr_quoted('emptytag')
 
 
+def css_writes_safe(cls):
+    """generate_stylesheet: every writeout is a literal, self.default_styles, or <expr>.replace(']]>', ']]]]><![CDATA[>')"""
+    tree = method_ast(cls, 'generate_stylesheet')
+    if tree is None:
+        return False
+    ok, seen = True, 0
+    for n in ast.walk(tree):
+        if isinstance(n, ast.Call) and _is_self_attr(n.func, 'writeout') and n.args:
+            a = n.args[0]
+            if isinstance(a, ast.Constant) and isinstance(a.value, str):
+                continue
+            if _is_self_attr(a, 'default_styles'):
+                continue
+            if isinstance(a, ast.Call) and isinstance(a.func, ast.Attribute) and a.func.attr == 'replace' and len(a.args) == 2 \
+                    and all(isinstance(x, ast.Constant) for x in a.args) and a.args[0].value == ']]>' \
+                    and a.args[1].value == ']]]]><![CDATA[>':
+                seen += 1
+                continue
+            ok = False
+    return ok and seen >= 1
+
+
 def measure(repo):
     import odf.odf2xhtml as X
     import odf.odf2moinmoin as M
@@ -170,6 +193,7 @@ def measure(repo):
     return {
         'elements': elements, 'hnames': sorted(hnames), 'helpers': helpers, 'writes': writes,
         'core': core_escapes(X.ODF2XHTML),
+        'css_safe': css_writes_safe(X.ODF2XHTML),
         'special': sorted(X.special_styles.items()),
         'moin_elements': melements, 'moin_ignored': list(M.IGNORED_TAGS), 'moin_inline': list(M.INLINE_TAGS),
         'nsdict_injective': len(set(nsdict.values())) == len(nsdict),
@@ -200,6 +224,8 @@ def to_lean(m):
     L.append(']\n')
     L.append('/-- writedata writes escape(d); opentag / emptytag quote every attribute value with quoteattr -/')
     L.append('def coreEscapes : Bool × Bool × Bool := (%s, %s, %s)\n' % tuple('true' if x else 'false' for x in m['core']))
+    L.append("/-- generate_stylesheet writes every non-literal string through .replace(']]>', ']]]]><![CDATA[>') (`Xhtml.cdataSafe`) -/")
+    L.append('def cssWritesSafe : Bool := %s\n' % ('true' if m['css_safe'] else 'false'))
     L.append('/-- `special_styles` -/')
     L.append('def specialStyles : List (List Nat × List Nat) := [')
     L.append(',\n'.join('  (%s, %s)  /- %s -> %s -/' % (cps(k), cps(v), k, v) for k, v in m['special']))
